@@ -20,8 +20,11 @@
    every case).  Floats are exact rationals; [abs(a - b) < tol] is evaluated exactly (Python rounds the
    subtraction: the harness counts the cases in which the rounding decides a comparison).
    NOT modelled: unresolved (integer) dividers, from-scratch surfaces whose constants are None,
-   Cells.update_pointers beyond the reset of cell.surfaces (material / complement / data-input links),
-   the state left behind when an exception escapes.  No proofs in this file. *)
+   Cells.update_pointers beyond the reset of cell.surfaces and the failing merge of data-block VOL/U/LAT/FILL cards
+   (material / complement links),
+   the state left behind when an exception escapes.
+   The second half (suffix _fx) is the same code with proposed_fixes/C18-1..3 applied: what the repairs are proved
+   to achieve; the current code is the first half.  No proofs in this file. *)
 From Coq Require Import List String Ascii ZArith QArith Qabs Bool.
 From MPV Require Import Model.Wire.
 Import ListNotations.
@@ -60,7 +63,7 @@ Record problem := mkProb {
   p_trs : list transform       (* the Transform objects among problem.data_inputs, in order *)
 }.
 
-Inductive err := IndexError | BrokenObjectLinkError | BadRequest.
+Inductive err := IndexError | BrokenObjectLinkError | MalformedInputError | BadRequest.
 Inductive res (A : Type) := Ok (a : A) | Err (e : err).
 Arguments Ok {A} a.
 Arguments Err {A} e.
@@ -345,6 +348,113 @@ Definition dedup (tol : Q) (P : problem) : res problem :=
       end
   end.
 
+(* the call on a problem whose data block holds a VOL, U, LAT or FILL card ([cellmod]): the second run of
+   Cells.update_pointers merges the card into the one already attached, which raises MalformedInputError - after the
+   scan and after the cells were re-pointed, before any surface is removed *)
+Definition dedup_call (cellmod : bool) (tol : Q) (P : problem) : res problem :=
+  match scan tol (p_surfs P) with
+  | Err e => Err e
+  | Ok _ => if cellmod then Err MalformedInputError else dedup tol P
+  end.
+
+(* ------------------------------------------------------------------------- the code with proposed_fixes/C18-1..3 *)
+(* C18-2: Transform.equivalent: rotation matrices of different length are not equivalent *)
+Definition tr_equivalent_fx (tol : Q) (a b : transform) : res bool :=
+  if negb (Bool.eqb (t_deg a) (t_deg b)) then Ok false
+  else if negb (Bool.eqb (t_m2a a) (t_m2a b)) then Ok false
+  else match vec_loop tol (t_disp a) (t_disp b) with
+       | Err e => Err e
+       | Ok false => Ok false
+       | Ok true =>
+           if negb (Nat.eqb (List.length (t_rot a)) (List.length (t_rot b))) then Ok false
+           else vec_loop tol (t_rot a) (t_rot b)
+       end.
+
+Definition tr_check_fx (tol : Q) (self other : surface) : res bool :=
+  match s_tr self with
+  | Some t => match s_tr other with
+              | Some t' => tr_equivalent_fx tol t t'
+              | None => Ok false
+              end
+  | None => match s_tr other with
+            | None => Ok true
+            | Some _ => Ok false
+            end
+  end.
+
+(* C18-1: Surface._may_be_merged_with *)
+Definition periodic_now (s : surface) : bool := negb (Z.eqb (s_perptr s) 0).
+Definition may_merge (self other : surface) : bool :=
+  negb (periodic_now self) && negb (periodic_now other)
+  && Bool.eqb (s_refl self) (s_refl other) && Bool.eqb (s_white self) (s_white other).
+
+Definition candidate_fx (tol : Q) (self other : surface) : res bool :=
+  if periodic_now self then Ok false
+  else if negb (same_kind self other) then Ok false
+  else match s_class self with
+       | CAxisPlane | CCylOnAxis =>
+           if negb (may_merge self other) then Ok false
+           else if near tol (cnst self 0) (cnst other 0) then tr_check_fx tol self other else Ok false
+       | CCylParAxis =>
+           if negb (may_merge self other) then Ok false
+           else if near tol (cnst self 2) (cnst other 2)
+                   && near tol (cnst self 0) (cnst other 0)
+                   && near tol (cnst self 1) (cnst other 1)
+           then tr_check_fx tol self other else Ok false
+       | COther => Ok false
+       end.
+
+(* the scan, over any test *)
+Fixpoint scan_loop_g (cand : surface -> surface -> res bool) (all todo : list surface)
+                     (del : list Z) (m : list (Z * Z)) : res (list Z * list (Z * Z)) :=
+  match todo with
+  | [] => Ok (del, m)
+  | s :: r =>
+      if memZ (s_num s) del then scan_loop_g cand all r del m
+      else match filter_res (cand s) all with
+           | Err e => Err e
+           | Ok ms => let '(del', m') := record_matches (map s_num ms) (s_num s) del m in
+                      scan_loop_g cand all r del' m'
+           end
+  end.
+
+Definition scan_fx (tol : Q) (all : list surface) : res (list Z * list (Z * Z)) :=
+  scan_loop_g (candidate_fx tol) all all [] [].
+
+(* C18-3: no pointer re-resolution; periodic_surface of the survivors re-pointed through the map *)
+Definition repoint_periodic (m : list (Z * Z)) (s : surface) : surface :=
+  match (if Z.eqb (s_perptr s) 0 then None else lookup (s_perptr s) m) with
+  | Some n => mkSurf (s_num s) (s_class s) (s_type s) (s_consts s) (s_oldper s) n (s_refl s) (s_white s)
+                     (s_oldtr s) (s_tr s)
+  | None => s
+  end.
+
+(* Cell.remove_duplicate_surfaces with C18-3: after the leaves are re-pointed (the divider setter appends a survivor
+   when the leaf knows its cell; modelled as always), every dead surface of the restricted dict is removed from
+   cell.surfaces and its survivor appended when absent, in dict order *)
+Definition surfs_after_fx (nd : list (Z * Z)) (g : geom) (cs : list Z) : list Z :=
+  let appended :=
+    fold_left (fun acc n => match lookup n nd with
+                            | Some s => if memZ s acc then acc else (acc ++ [s])%list
+                            | None => acc
+                            end) (leaf_surfs g) cs in
+  fold_left (fun acc kv => let acc' := remove_first (fst kv) acc in
+                           if memZ (snd kv) acc' then acc' else (acc' ++ [snd kv])%list) nd appended.
+
+Definition cell_dedup_fx (m : list (Z * Z)) (c : cell) : cell :=
+  match restrict (c_surfs c) m with
+  | [] => c
+  | nd => mkCell (c_num c) (surfs_after_fx nd (c_geom c) (c_surfs c)) (hs_dedup nd (c_geom c))
+  end.
+
+Definition dedup_fx (tol : Q) (P : problem) : res problem :=
+  match scan_fx tol (p_surfs P) with
+  | Err e => Err e
+  | Ok (del, m) =>
+      Ok (mkProb (remove_all del (map (repoint_periodic m) (p_surfs P)))
+                 (map (cell_dedup_fx m) (p_cells P)) (p_trs P))
+  end.
+
 (* ------------------------------------------------------------------------- wire *)
 Open Scope string_scope.
 
@@ -471,28 +581,38 @@ Definition show_err (e : err) : string :=
   match e with
   | IndexError => "IndexError"
   | BrokenObjectLinkError => "BrokenObjectLinkError"
+  | MalformedInputError => "MalformedInputError"
   | BadRequest => "BadRequest"
   end.
 
 Definition show_pair (kv : Z * Z) : string := show_Z (fst kv) ++ ">" ++ show_Z (snd kv).
 
-(* request : "<tol> <surfaces> <cells> <transforms>"
+(* request : "<mode> <tol> <surfaces> <cells> <transforms>"   mode: c = the current code, f = the variant with
+   proposed_fixes/C18-1..3; a following m = the data block holds a VOL / U / LAT / FILL card
    response: "ok <surviving numbers> <matching map> <to_delete> <cells> <surviving: num:periodic:transform>"
              or "err <exception class>" *)
+Definition run_with (fx cellmod : bool) (tol ss cs ts : string) : string :=
+  match parse_Q tol, parse_semi parse_surface ss, parse_semi parse_cell cs, parse_semi parse_tr ts with
+  | Some tol, Some ss, Some cs, Some ts =>
+      match (if fx then scan_fx tol ss else scan tol ss),
+            (if fx then dedup_fx tol (mkProb ss cs ts) else dedup_call cellmod tol (mkProb ss cs ts)) with
+      | Ok (del, m), Ok P' =>
+          "ok " ++ show_list show_Z (map s_num (p_surfs P')) ++ " " ++ show_list show_pair m
+          ++ " " ++ show_list show_Z del
+          ++ " " ++ show_semi show_cell (p_cells P') ++ " " ++ show_semi show_ptrs (p_surfs P')
+      | Err e, _ => "err " ++ show_err e
+      | _, Err e => "err " ++ show_err e
+      end
+  | _, _, _, _ => "err " ++ show_err BadRequest
+  end.
+
 Definition run_Dedup (req : string) : string :=
   match words req with
-  | [tol; ss; cs; ts] =>
-      match parse_Q tol, parse_semi parse_surface ss, parse_semi parse_cell cs, parse_semi parse_tr ts with
-      | Some tol, Some ss, Some cs, Some ts =>
-          match scan tol ss, dedup tol (mkProb ss cs ts) with
-          | Ok (del, m), Ok P' =>
-              "ok " ++ show_list show_Z (map s_num (p_surfs P')) ++ " " ++ show_list show_pair m
-              ++ " " ++ show_list show_Z del
-              ++ " " ++ show_semi show_cell (p_cells P') ++ " " ++ show_semi show_ptrs (p_surfs P')
-          | Err e, _ => "err " ++ show_err e
-          | _, Err e => "err " ++ show_err e
-          end
-      | _, _, _, _ => "err " ++ show_err BadRequest
-      end
+  | [k; tol; ss; cs; ts] =>
+      if String.eqb k "c" then run_with false false tol ss cs ts
+      else if String.eqb k "cm" then run_with false true tol ss cs ts
+      else if String.eqb k "f" then run_with true false tol ss cs ts
+      else if String.eqb k "fm" then run_with true true tol ss cs ts
+      else "err " ++ show_err BadRequest
   | _ => "err " ++ show_err BadRequest
   end.
